@@ -81,7 +81,7 @@ def strategy(tier):
 
 
 def examples(tier):
-    return 1920 if tier == "quick" else 30000
+    return 1920 if tier == "quick" else 100000
 
 
 def run_case(case):
